@@ -345,6 +345,23 @@ def parse_avx2():
                                r"mask%s\s*=\s*_mm256_set1_epi32\s*\(((?:[^()]|\([^()]*\))*)\)\s*;",
                                r"digit%s\s*=\s*_mm256_(slli|srli)_epi32\s*\(\s*digit%s\s*,\s*([^()]*)\)\s*;",
                                r"_mm256_or_si256\(_mm256_or_si256\(digit0,digit1\),_mm256_or_si256\(digit2,digit3\)\)")
+    # decode(): which vector the stores read, in BOTH preprocessor configurations (with / without _mm256_extract_epi64)
+    db = _function_body(src, "decode")
+    m = re.search(r"(?:__m256i\s+)?(\w+)\s*=\s*pack_vec\s*\(\s*vec\s*\)\s*;", db)
+    lo = re.search(r"_mm256_extracti128_si256\s*\(\s*(\w+)\s*,\s*([^()]*?)\s*\)", db)
+    ext = re.search(r"#\s*ifdef\s+AWS_HAVE_MM256_EXTRACT_EPI64\s+uint64_t\s+hi\s*=\s*_mm256_extract_epi64\s*\(\s*(\w+)\s*,\s*([^()]*?)\s*\)\s*;\s*"
+                    r"const\s+uint64_t\s*\*\s*p_hi\s*=\s*&hi\s*;\s*#\s*else\s+const\s+uint64_t\s*\*\s*p_hi\s*=\s*\(\s*uint64_t\s*\*\s*\)\s*&\s*(\w+)\s*\+\s*([^;]*?)\s*;\s*#\s*endif", db)
+    st = re.search(r"_mm_storeu_si128\s*\(\s*\(__m128i\s*\*\)\s*out\s*,\s*lo\s*\)\s*;\s*memcpy\s*\(\s*out\s*\+\s*([^,]*?)\s*,\s*p_hi\s*,\s*sizeof\s*\(\s*\*p_hi\s*\)\s*\)\s*;", db)
+    if not m or not lo or not ext or not st:
+        raise core.GenError("encoding_avx2.c: decode(): pack_vec result / low-half extraction / high element (both #ifdef branches) / stores not in the expected form")
+    packed = m.group(1)
+    readers = {"_mm256_extracti128_si256": lo.group(1), "_mm256_extract_epi64 (#ifdef branch)": ext.group(1), "(uint64_t *)&… (#else branch)": ext.group(3)}
+    for what, v in readers.items():
+        if v != packed:
+            raise core.GenError(f"encoding_avx2.c: decode(): {what} reads `{v}` but the packed vector is `{packed}`")
+    if _const(lo.group(2)) != 0 or _const(ext.group(2)) != _const(ext.group(4)):
+        raise core.GenError("encoding_avx2.c: decode(): the two configurations take different 64-bit elements / the low half is not half 0")
+    c["dec_hi_elem"], c["dec_hi_off"] = _const(ext.group(2)), _const(st.group(1))
     # driver loops
     dd = _function_body(src, "aws_common_private_base64_decode_sse41")
     m = re.search(r"while\s*\(\s*len\s*(>=|>)\s*([^()]+?)\s*\)", dd)
@@ -399,6 +416,9 @@ def regen_avx2():
             f"def decShufvec : List Nat := {lst(c['dec_shufvec'])}\ndef decShuf32 : List Nat := {lst(c['dec_shuf32'])}\n"
             "/-- encode_stride: `shufvec_buf` in memory order, `shuf32` with element 0 first -/\n"
             f"def encShufvec : List Nat := {lst(c['enc_shufvec'])}\ndef encShuf32 : List Nat := {lst(c['enc_shuf32'])}\n"
+            "/-- decode(): the 64-bit element of the packed vector copied after the low 128 bits (the same in the configurations with and\n"
+            "without _mm256_extract_epi64: both read the packed vector), and the output offset it is copied to -/\n"
+            f"def decHiElem : Nat := {c['dec_hi_elem']}\ndef decHiOff : Nat := {c['dec_hi_off']}\n"
             "/-- pack_vec: for bitsA..bitsD `(mask, 1 = slli / 0 = srli, count)`; combined as (A|B)|(C|D) -/\n"
             f"def packOps : List (Nat × Nat × Nat) := {trip(c['pack_ops'])}\n"
             "/-- encode_stride: for digit0..digit3 `(mask, 1 = slli / 0 = srli, count)`; combined as (0|1)|(2|3) -/\n"
